@@ -64,6 +64,7 @@ type Contract struct {
 	Pure     bool
 	MayPanic bool
 	Defs     []MacroDef
+	NoEscape bool // a panic may be raised and recovered inside, but must not escape
 }
 
 func LoadWorld(repo string) (*World, error) {
